@@ -143,10 +143,29 @@ class Model:
     self.sys = s
     self.kinds = link_kinds(s)
     self.st = wire.sys_tokens(s)
-    self.fwd = jax.jit(lambda q, qd: kinematics.forward(s, q, qd))
-    self.w2j = jax.jit(lambda x, xd: kinematics.world_to_joint(s, x, xd))
-    self.inv = jax.jit(lambda j, jd: kinematics.inverse(s, j, jd))
     self.nq, self.nv, self.n = s.q_size(), s.qd_size(), len(s.link_types)
+    self._jit = {}
+
+  # the three real functions, jitted lazily (one compile each, only when used on their own)
+  def _get(self, name):
+    import jax
+    from brax import kinematics
+    s = self.sys
+    if name not in self._jit:
+      f = {'fwd': lambda q, qd: kinematics.forward(s, q, qd),
+           'w2j': lambda x, xd: kinematics.world_to_joint(s, x, xd),
+           'inv': lambda j, jd: kinematics.inverse(s, j, jd)}[name]
+      self._jit[name] = jax.jit(f)
+    return self._jit[name]
+
+  def fwd(self, q, qd):
+    return self._get('fwd')(q, qd)
+
+  def w2j(self, x, xd):
+    return self._get('w2j')(x, xd)
+
+  def inv(self, j, jd):
+    return self._get('inv')(j, jd)
 
   def roundtrip(self, q, qd):
     import jax.numpy as jp
@@ -231,7 +250,7 @@ def run_cases(ctx, n_models, n_states, seed_offset=0, spec_only=False):
   lines, plan = [], []            # plan: (kind of line, model, payload)
   spec_failures = []
   stack_hist, vel_meas = {}, {}
-  n_extra = max(2, n_models // 8) if not spec_only else 0
+  n_extra = max(2, n_models // 10) if not spec_only else 0
   models = []
   for mi in range(n_models + n_extra):
     in_q = mi < n_models
@@ -243,7 +262,20 @@ def run_cases(ctx, n_models, n_states, seed_offset=0, spec_only=False):
       stack_hist[k] = stack_hist.get(k, 0) + 1
     for si in range(n_states):
       q, qd = modelgen.rand_state(rng, m.sys, q_range=Q_RANGE)
+      # random joint-frame / world inputs (not generated by forward)
+      jp_, jr_ = rand_tf(rng, m.n)
+      ja, jv = rng.uniform(-1, 1, size=(m.n, 3)), rng.uniform(-1, 1, size=(m.n, 3))
+      xp_, xr_ = rand_tf(rng, m.n)
+      xa, xv = rng.uniform(-1, 1, size=(m.n, 3)), rng.uniform(-1, 1, size=(m.n, 3))
       x, xd, j, jd, a_p, a_c, q2, qd2 = m.roundtrip(q, qd)
+      pack = lambda w: np.concatenate([np.asarray(v) for v in (w[0].pos, w[0].rot, w[1].ang, w[1].vel, w[2].pos, w[2].rot,
+                                                               w[3].pos, w[3].rot)], axis=1)
+      e = dict(w_fwd=pack((j, jd, a_p, a_c)))
+      if not spec_only:
+        rq, rqd = m.inv(Transform(pos=jp.asarray(jp_), rot=jp.asarray(jr_)), Motion(ang=jp.asarray(ja), vel=jp.asarray(jv)))
+        e.update(q_rand=np.asarray(rq), qd_rand=np.asarray(rqd))
+        e['w_rand'] = pack(m.w2j(Transform(pos=jp.asarray(xp_), rot=jp.asarray(xr_)),
+                                 Motion(ang=jp.asarray(xa), vel=jp.asarray(xv))))
       if in_q:
         fails, meas = spec_roundtrip(m, q, qd, q2, qd2)
         spec_failures += fails
@@ -254,24 +286,14 @@ def run_cases(ctx, n_models, n_states, seed_offset=0, spec_only=False):
         continue
       xt = tf_tokens(x.pos, x.rot) + motion_tokens(xd.ang, xd.vel)
       jt = tf_tokens(j.pos, j.rot) + motion_tokens(jd.ang, jd.vel)
-      real_w = np.concatenate([np.asarray(v) for v in (j.pos, j.rot, jd.ang, jd.vel, a_p.pos, a_p.rot, a_c.pos, a_c.rot)], axis=1)
-      lines.append(' '.join(['w2j'] + m.st + xt)); plan.append(('w2j', m, dict(real=real_w, q=q, qd=qd)))
+      lines.append(' '.join(['w2j'] + m.st + xt)); plan.append(('w2j', m, dict(real=e['w_fwd'], q=q, qd=qd)))
       lines.append(' '.join(['inv'] + m.st + jt)); plan.append(('inv', m, dict(q=q2, qd=qd2, src='forward', q0=q, qd0=qd)))
       lines.append(' '.join(['rt'] + m.st + wire.vec_tokens(q) + wire.vec_tokens(qd)))
       plan.append(('rt', m, dict(q=q2, qd=qd2, q0=q, qd0=qd)))
-      # random joint-frame inputs (not generated by forward)
-      jp_, jr_ = rand_tf(rng, m.n)
-      ja, jv = rng.uniform(-1, 1, size=(m.n, 3)), rng.uniform(-1, 1, size=(m.n, 3))
-      rq, rqd = m.inv(Transform(pos=jp.asarray(jp_), rot=jp.asarray(jr_)), Motion(ang=jp.asarray(ja), vel=jp.asarray(jv)))
       lines.append(' '.join(['inv'] + m.st + tf_tokens(jp_, jr_) + motion_tokens(ja, jv)))
-      plan.append(('inv', m, dict(q=np.asarray(rq), qd=np.asarray(rqd), src='random', j=(jp_, jr_, ja, jv))))
-      # random world inputs for world_to_joint
-      xp_, xr_ = rand_tf(rng, m.n)
-      xa, xv = rng.uniform(-1, 1, size=(m.n, 3)), rng.uniform(-1, 1, size=(m.n, 3))
-      w = m.w2j(Transform(pos=jp.asarray(xp_), rot=jp.asarray(xr_)), Motion(ang=jp.asarray(xa), vel=jp.asarray(xv)))
-      real_w = np.concatenate([np.asarray(v) for v in (w[0].pos, w[0].rot, w[1].ang, w[1].vel, w[2].pos, w[2].rot, w[3].pos, w[3].rot)], axis=1)
+      plan.append(('inv', m, dict(q=e['q_rand'], qd=e['qd_rand'], src='random')))
       lines.append(' '.join(['w2j'] + m.st + tf_tokens(xp_, xr_) + motion_tokens(xa, xv)))
-      plan.append(('w2j', m, dict(real=real_w, src='random')))
+      plan.append(('w2j', m, dict(real=e['w_rand'], src='random')))
   # synthetic dof.motion on the extra models: every branch of link_to_joint_frame (zero axes -> eye,
   # rp / pr / rpp / prp / ppr completion, is_both) on random joint-frame inputs
   if not spec_only:
@@ -466,7 +488,7 @@ def correspond(ctx):
   n_models = ctx.budget(40, 400)
   r = run_cases(ctx, n_models, 3)
   t1 = time.time()
-  p = run_pipelines(ctx, ctx.budget(4, 40))
+  p = run_pipelines(ctx, ctx.budget(4, 24))
   t2 = time.time()
   m0 = r['models'][0]
   distinct = len({(m.sys.link_types, tuple(m.sys.link_parents), tuple(m.kinds)) for m in r['models']})
@@ -475,7 +497,7 @@ def correspond(ctx):
       evaluations=r['evaluations'] + p['evaluations'],
       distinct_nontrivial=distinct,
       rule=f'{n_models} generator forests inside the quantifier (orthogonal=True, kinds one_kind / slides_then_hinge, either '
-           'handedness, 1-6 links, free/world roots, body offsets/rotations, anchor offsets) + 12% forests with mixed stacks / synthetic dof.motion '
+           'handedness, 1-6 links, free/world roots, body offsets/rotations, anchor offsets) + 10% forests with mixed stacks / synthetic dof.motion '
            '(model<->implementation legs only) x 3 states (q in [-1.2,1.2], unit root quaternions, qd in [-1,1]); per state: '
            'world_to_joint and inverse vs Lean on forward-generated and on random inputs, the Lean round trip vs the real one, '
            'and the round trip itself vs (q, qd); plus one spring and one positional step on small forests; distinct = distinct '
